@@ -4,7 +4,6 @@ import (
 	"context"
 	"errors"
 	"github.com/mdlayher/sdnotify"
-	"os"
 )
 
 // sd_notify is environment: record what is announced.
@@ -57,11 +56,3 @@ func (t *zzStubTask) Run(ctx context.Context) error {
 func (t *zzStubTask) Ready() <-chan struct{} { return t.readyC }
 
 func (t *zzStubTask) String() string { return t.name }
-
-// Recording the terminate/reload decision is a visible step: other tasks may
-// run right before it (this is what makes a "cancel before set" reordering
-// observable, in the engine and natively).
-func zzStub_corerad_terminator_set(t *terminator, s os.Signal) {
-	zzYield("terminator.set")
-	t.set(s)
-}
